@@ -56,6 +56,15 @@ theorem getElem?_penultimate (l : List Nat) (a b : Nat) :
 theorem mem_of_contains {l : List Nat} {x : Nat} (h : l.contains x = true) : x ∈ l := by
   simpa using h
 
+/-- how the update path is put together -/
+def UpShape (r : Nat) (ks : List RTree) (p : List Nat) (s : Nat) : Prop :=
+  (ks = [] ∧ p = [r]) ∨
+  (∃ ki up, ks = [ki] ∧ sweepUp s ki = some up ∧ p = up ++ [r]) ∨
+  (∃ ki kj up dn f, ki ∈ ks ∧ kj ∈ ks ∧ ki.rid ≠ kj.rid ∧ sweepUp s ki = some up ∧
+     sweepDown f kj = some dn ∧
+     p = up ++ (postorderL (ks.filter (fun k => !(k.rid == ki.rid || k.rid == kj.rid)))
+          ++ [r] ++ dn))
+
 /-- The update path of a well-formed tree: it is computed without error, visits every node exactly
     once, starts at the start node, and ends at the root when the root has at most one child and
     at a leaf otherwise. -/
@@ -63,10 +72,10 @@ theorem updatePath_spec (r : Nat) (ks : List RTree) (hwf : (node r ks).WF) :
     ∃ p s, updatePath (node r ks) = some p ∧ findStart (node r ks) = some s ∧
       p.Perm (r :: idsL ks) ∧ p.head? = some s ∧
       ((ks.length ≤ 1 ∧ p.getLast? = some r) ∨
-       (∃ f, p.getLast? = some f ∧ isLeaf (node r ks) f = true)) := by
+       (∃ f, p.getLast? = some f ∧ isLeaf (node r ks) f = true)) ∧ UpShape r ks p s := by
   cases ks with
   | nil =>
-    refine ⟨[r], r, ?_, ?_, by simp, by simp, Or.inl (by simp)⟩
+    refine ⟨[r], r, ?_, ?_, by simp, by simp, Or.inl (by simp), Or.inl ⟨rfl, rfl⟩⟩
     · simp [updatePath, findStart, argmaxFirst, argmaxGo, rootPath, upPart, rootDown,
         furthestNonVisitedLeaf, leavesOf, keepKids, downPart]
     · simp [findStart, argmaxFirst, argmaxGo]
@@ -104,16 +113,17 @@ theorem updatePath_spec (r : Nat) (ks : List RTree) (hwf : (node r ks).WF) :
     · -- the root has one child: the path ends at the root
       have hrd : rootDown (node r ks) r ks (q.reverse ++ [ki.rid, r]) up = some [r] := by
         simp [rootDown, hlen]
-      refine ⟨up ++ [r], s, ?_, hs, ?_, ?_, Or.inl ⟨by omega, by simp⟩⟩
+      have hks1 : ks = [ki] := by
+        cases ks with
+        | nil => simp at hlen
+        | cons a l =>
+          cases l with
+          | nil => simp at hki; simp [hki]
+          | cons b l' => simp at hlen
+      refine ⟨up ++ [r], s, ?_, hs, ?_, ?_, Or.inl ⟨by omega, by simp⟩,
+        Or.inr (Or.inl ⟨ki, up, hks1, hup, rfl⟩)⟩
       · simp only [updatePath, hs, hmp, hupPart, hrd, Option.bind_some]
-      · have hks1 : ks = [ki] := by
-          cases ks with
-          | nil => simp at hlen
-          | cons a l =>
-            cases l with
-            | nil => simp at hki; simp [hki]
-            | cons b l' => simp at hlen
-        subst hks1
+      · rw [hks1]
         simp only [idsL_cons, idsL_nil, List.append_nil]
         exact (List.perm_append_comm).trans (by simpa using hupperm)
       · cases up with
@@ -183,7 +193,8 @@ theorem updatePath_spec (r : Nat) (ks : List RTree) (hwf : (node r ks).WF) :
         simp only [rootDown, this, hfur, hpdf, hkeep, hdown, Option.bind_some]
         simp
       refine ⟨up ++ (postorderL (ks.filter (fun k => !(k.rid == ki.rid || k.rid == kj.rid)))
-          ++ [r] ++ dn), s, ?_, hs, ?_, ?_, Or.inr ⟨f, ?_, ?_⟩⟩
+          ++ [r] ++ dn), s, ?_, hs, ?_, ?_, Or.inr ⟨f, ?_, ?_⟩,
+        Or.inr (Or.inr ⟨ki, kj, up, dn, f, hki, hkj, Ne.symm hne, hup, hdn, rfl⟩)⟩
       · simp only [updatePath, hs, hmp, hupPart, hrd, Option.bind_some]
       · have hp2 := idsL_remove_two hrids hki hkj (Ne.symm hne)
         apply List.perm_iff_count.mpr
